@@ -9,7 +9,9 @@
    For every step TLC
      (a) evaluates StepFn on the member's previous RECORDED state and the recorded inputs and
          compares state / outbound bag / emitted entries with what the real code did  -> `drift`
-         (the model no longer describes the code; not a verdict on C40), and
+         (the model no longer describes the code; not a verdict on C40) -- EXCEPT the step's commit
+         decision: a commit index or emitted entries different from StepFn's is the C40 rule
+         "commit-differs-from-model" (a member committed what the specified Raft step would not), and
      (b) adopts the RECORDED post state and evaluates the C40 monitor (Agreement, AppendOnly,
          ElectionSafety) and the protocol safety predicates of Raft.tla on the recorded global
          state -> `viol` (a fork, or the first state from which a fork becomes possible).
@@ -74,6 +76,9 @@ TStep ==
            emitOk == \A i \in 1..Len(Ev.com) :
                         LET c == Ev.com[i] IN
                         c[1] >= 1 /\ c[1] <= Len(post.log) /\ post.log[c[1]] = <<c[2], c[3]>>
+           \* the COMMIT decision of the step (commit index, emitted entries) must be the one of the
+           \* specified step function: committing anything else is a C40 violation, not drift
+           commitSame == pred.panic # "" \/ (pred.s.ci = post.ci /\ pred.com = Ev.com)
            same == /\ pred.panic = ""
                    /\ pred.s = post
                    /\ BagOf(pred.out) = BagOf(NormSeq(Ev.out))
@@ -83,7 +88,10 @@ TStep ==
        IN /\ st' = [st EXCEPT ![m] = post]
           /\ chosen' = mon[1]
           /\ hi' = [hi EXCEPT ![m] = mon[2]]
-          /\ flags' = IF emitOk THEN mon[3] ELSE mon[3] \cup {"EmitNotFromLog"}
+          /\ flags' = mon[3]
+                      \cup (IF emitOk THEN {} ELSE {"EmitNotFromLog"})
+                      \cup (IF commitSame THEN {} ELSE {"commit-differs-from-model"})
+                      \cup (IF CommitOnlyCurrentTerm(st[m], post) THEN {} ELSE {"CommitOnlyCurrentTerm"})
           /\ claims' = IF post.role = 2 /\ (st[m].role # 2 \/ st[m].term # post.term)
                        THEN claims \cup {<<post.term, m>>} ELSE claims
           /\ drift' = IF same THEN drift ELSE drift \cup {<<case, l>>}
